@@ -538,6 +538,14 @@ def handwritten() -> List[dict]:
     # a rule without value (it uses an unproductive nonterminal) before productive rules of the same left-hand side
     from props import c03_bounded as C3
     out += [g for g in C3.handwritten_extra() if g["meta"]["family"].startswith("unproductive") and g["meta"]["family"].endswith("-order0")]
+    # an acyclic nonterminal T and a recursive R side by side (the presentation decides which is scheduled first);
+    # the best R derivation needs the recursive rule
+    out.append(G._mk({"N0": 2}, {"S": ([], N), "T": (["N0"], N), "R": (["N0"], N), "f": (["N0"], T), "b": (["N0"], T),
+                                "m": (["N0", "N0"], T), "stop": (["N0"], T)}, "S",
+                     [("S", ["N0"], [("f", [0]), ("T", [0]), ("R", [0])], []), ("T", ["N0"], [("b", [0])], [0]),
+                      ("R", ["N0", "N0"], [("m", [0, 1]), ("R", [1])], [0]), ("R", ["N0"], [("stop", [0])], [0])],
+                     {"f": [1.0, 0.05], "b": [0.6, 0.6], "m": [[0.1, 0.9], [0.1, 0.1]], "stop": [0.02, 0.8]},
+                     {"family": "acyclic-next-to-recursive"}))
     # three levels and a cycle below the start: S -> X Y ; X -> Y a | b ; Y -> X c | Z ; Z -> d  (bottom-up order matters to scc)
     out.append(G._mk({"N0": 2}, {"S": ([], N), "X": (["N0"], N), "Y": (["N0"], N), "Z": (["N0"], N), "a": (["N0"], T), "b": (["N0"], T),
                                 "c": (["N0", "N0"], T), "d": (["N0"], T)}, "S",
